@@ -17,6 +17,8 @@ from tally.parsers import parse_generic_csv
 O = Oracle()
 
 FAILING = [
+    # exceptions outside the usual TypeError / ValueError family: OverflowError (float -> int, regex repeat count), KeyError (%-formatting with a mapping key)
+    'round(amount * 1e308 * 1e308) == 1', 'regex("A{1,4294967296}")', '"%(nosuch)s" % description == "x"',
     '(r + 1 for r in description)', '(r for r in amount)', 'amount > "x"', 'contains(5)', 'description + 1', 'amount.foo == 1', 'next(r for r in description if r == "~")',
     'min(c for c in "") > 1', 'regex_replace(description, "(", "") == ""', 'substring("a", "b") == ""', 'split(5, 0) == ""',
     'field.missing == "x"', 'unknown_var', 'description[99] == "a"', 'len(5) > 0', 'sum(description) > 0', '-description == 1',
@@ -26,9 +28,9 @@ FAILING = [
     'all(1)', 'next(5)', 'exists(1, 2)', 'field.kind.nope == 1',
 ]
 if O.tier == 'quick':
-    FAILING = FAILING[:28]
+    FAILING = FAILING[:31]
 
-VIEW_FAILING = ['max(sum(by(months))) > 50', 'period(months) > 1', 'sum(by(5)) > 1', 'period(1) > 1', 'sum(by("nope")) > 1', 'avg("x") > 1', 'stddev(1) > 0',
+VIEW_FAILING = ['round(total * 1e308 * 1e308) > 1', 'max(sum(by(months))) > 50', 'period(months) > 1', 'sum(by(5)) > 1', 'period(1) > 1', 'sum(by("nope")) > 1', 'avg("x") > 1', 'stddev(1) > 0',
                 'max_val("a", 1) > 0', 'min_val(total, "b") > 0', 'count(5) > 0', 'sum(total) > 0', 'max(by) > 1', 'cv > "a"', 'months + "x" > 1', 'total / "2" > 1']
 
 TXNS = [
@@ -208,9 +210,40 @@ def check_views(fe):
         O.fail('C08.failing_filter_includes_merchant', w, [], [m for m, _ in res['Failing View']])
 
 
+SHORT_CIRCUITED = ['contains("GOOD") or startswith(5)', 'anyof("GOOD", 711)', 'fuzzy("GOOD STORE", 0.8)', 'contains("GOOD") or regex(None)', 'contains("GOOD") or contains(true)',
+                   'contains("GOOD") or "x" in [r.a for r in nosuch]', 'not contains("ZZZ") or normalized(1.5)']
+
+
+def check_matching_rule_with_unevaluated_parts():
+    """a rule that MATCHES although part of its expression could not be evaluated (short-circuited away, or a non-string literal a function accepts): whatever
+    the engine does with a matching rule besides evaluating it (ranking in most_specific mode, tags, fields) must not fail either"""
+    for fe in SHORT_CIRCUITED:
+        for mode in ('first_match', 'most_specific'):
+            for order in ('FG', 'GF'):
+                w = {'position': 'matching_rule', 'expr': fe, 'mode': mode, 'order': order}
+                O.case(('matching', fe, mode, order))
+                parts = {'F': '[Failing]\nmatch: %s\ncategory: CatF\nsubcategory: SubF\n' % fe, 'G': GOOD}
+                text = '\n'.join(parts[c] for c in order)
+                try:
+                    eng = parse_merchants(text, mode)
+                except Exception:
+                    continue            # rejected at load: allowed
+                for ti, t in enumerate(TXNS):
+                    try:
+                        r = eng.match(txn_dict(t))
+                    except BaseException as e:
+                        O.fail('C08.match_aborts.matching_rule_with_unevaluated_part', dict(w, txn=ti), 'classification completes', '%s: %s' % (type(e).__name__, e), 'parse_merchants(text, mode).match(txn)')
+                        break
+                    if 'GOOD' in t['description'] and not r.matched:
+                        O.fail('C08.other_rules_affected.matching_rule_with_unevaluated_part', dict(w, txn=ti), 'a rule matches', summarize(r))
+
+
 def main():
     if O.witness:
         w = O.witness
+        if w.get('position') == 'matching_rule':
+            check_matching_rule_with_unevaluated_parts()
+            O.finish()
         if w.get('position') == 'view':
             check_views(w['expr'])
         elif w.get('via') == 'legacy_csv':
@@ -228,6 +261,7 @@ def main():
             check_normalize_and_csv(position, fe)
         check_views(fe)
     check_legacy_csv()
+    check_matching_rule_with_unevaluated_parts()
     # view filters / variables that misuse the aggregate primitives (arguments of the wrong type, unknown periods)
     for fe in VIEW_FAILING:
         check_views(fe)
